@@ -16,7 +16,9 @@ CFG = dict(
          "requests -> Start again, no other status refresh; sometimes a Start request while running, which must be refused). `asmReq` (the real AbacoSource on a scripted packet producer - its getNextBlock launches one "
          "assembler goroutine per call: Start -> blocks -> 1-3 queued requests served by the core loop -> 1-2 Stops -> re-arm -> Start again; sites asm.spawn/.send/.close: "
          "at most one acquisition step pending, nextBlock closed once). `holdStop` (2 cases in quick: the core loop is held at a gate - in front of its select / right after taking a "
-         "block - for 3.2-3.8 s while a Stop call is pending; Stop must not return during the hold; then release, post-conditions, restart). After every failed Start the real "
+         "block - for 3.2-3.8 s while a Stop call is pending; Stop must not return during the hold; then release, post-conditions, restart). `abacoSelfEnd` (1 case in quick: the scripted packet stream of the real AbacoSource stops "
+         "and nobody calls Stop; the reader's 5 s no-data time-out must end the run cleanly - Inactive within 7.5 s, devices released, restartable; the loop is held 300 ms at "
+         "loop.processed after the last block so the order of the two 5 s timers does not depend on load). After every failed Start the real "
          "object's completion barrier is observed (runDone.Wait() returns? run-done channel closed?) and judged: Inactive <-> counter 0. The logged "
          "trace must be a run of the Lean transition system; return values, GetState(), goroutine census, writing flag and UDP-port re-bindability "
          "must equal the model's and satisfy the property oracle; a watchdog turns a hang into the output `hang 1`. Non-trivial = at least two "
@@ -65,6 +67,7 @@ THEOREMS = [
     ("DastardV.Props.C10", "DastardV.C10.lc_inv_no_double_close"),
     ("DastardV.Props.C10", "DastardV.C10.C10_one_acquisition_step"),
     ("DastardV.Props.C10", "DastardV.C10.C10_request_keeps_step"),
+    ("DastardV.Props.C10", "DastardV.C10.C10_self_close_once"),
     ("DastardV.Props.C10", "DastardV.C10.C10_stop_decision_atomic"),
     ("DastardV.Props.C10", "DastardV.C10.C10_switch_from_active"),
     ("DastardV.Props.C10", "DastardV.C10.C10_no_stuck_state"),
